@@ -41,6 +41,8 @@ def typed(cmd):
     """cmd: (name, arg) where arg is the typed character(s) for key-inspecting commands.
     Returns (bytes to type, Keys.Caller() runes)."""
     name = cmd[0]
+    if name == "raw":                  # bytes typed as they are (commands outside the model)
+        return cmd[1], list(cmd[1])
     if name == "self-insert":
         c = cmd[1]
         return c.encode(), [ord(c)]
@@ -109,7 +111,10 @@ def run(sessions, sel_pos=False, calls=1, extra_rc=""):
             scn["histories"] = [{"name": "h", "kind": "mem", "lines": s["hist"]}]
         chunks = [typed(c)[0] for c in s["cmds"]]
         jobs.append({"scenario": scn, "chunks": chunks, "inputrc": inputrc(s["vi"], s.get("rc", "") + extra_rc)})
-        mlines.append(model_case(s["vi"], True, s.get("max", -1), s.get("hist") or [], s["cmds"]))
+        if any(c[0] == "raw" for c in s["cmds"]):
+            s["modelled"] = False
+        mlines.append(model_case(s["vi"], True, s.get("max", -1), s.get("hist") or [],
+                                 [c for c in s["cmds"] if c[0] != "raw"] if s.get("modelled", True) else []))
     res = P.run_many(jobs)
     gm = vlib.model(mlines)
     out = []
